@@ -154,8 +154,8 @@ func (buf *bufferer) Destroy() {
 
 func (buf *bufferer) recoverExistingChunks() {
 	numChunks := 0
+	numSkipped := 0
 
-RECOVERY_LOOP:
 	for _, chunk := range buf.chunkMan.ScanChunks() {
 		select {
 		case buf.inputChannel <- chunk:
@@ -163,9 +163,13 @@ RECOVERY_LOOP:
 			buf.metrics.queuedChunksPersistent.Inc()
 			numChunks++
 		default:
-			buf.logger.Warnf("too many chunk files, skip id=%s", chunk.ID)
-			break RECOVERY_LOOP
+			// cannot be queued before the next start, but the file still takes up space in the queue dir
+			buf.chunkMan.OnChunkSkipped(chunk)
+			numSkipped++
 		}
+	}
+	if numSkipped > 0 {
+		buf.logger.Warnf("too many chunk files, skipped count=%d", numSkipped)
 	}
 	buf.logger.Infof("recovered chunks count=%d", numChunks)
 }
